@@ -8,24 +8,32 @@ finite list of selections (restriction string x per-vm variant restriction x net
 compared with simple graph-theoretic oracles written from the property statement.
 
 Scope (stated bound):
-  quick   : 8 selections (tutorial1, tutorial2 (2 leaves), tutorial3 (2 vms), tutorial_gui (2 vms, 2 leaves),
-            tutorial_get..implicit_both (3 vms, cloning), tutorial_finale (deep cloning), a multi-variant vm1 product and a
-            restricted-net pair) with 1..3 nets; eager parse of each, a second eager parse (determinism) of four and a
-            lazy (on demand) expansion of four of them in a seeded order of (flat test, worker) pairs.
-  thorough: every main test set of the suite (tutorial1, tutorial2, tutorial3, tutorial_gui, tutorial_get,
-            tutorial_finale under normal/leaves/all/minimal where non-empty) x 3 vm restrictions (single variant, vm1
-            multi-variant, vm2 multi-variant) x {1,2,3} nets (incl. restricted net3/net5 and cluster nets), each eager,
-            twice (determinism) and lazy with 2 seeded orders; capped by a time budget (selections in a fixed order).
+  quick   : 9 selections: tutorial_get..implicit_both (3 vms, cloning; 2 nets; + lazy), tutorial_gui (3 nets), tutorial3 (2 nets;
+            parsed twice), tutorial_gui..client_noop with multi-variant vm2 on a cluster net and the restricted net3,
+            tutorial_finale (deep cloning, 2 nets), tutorial1 (2 nets; twice; lazy), tutorial1 with multi-variant vm1 on
+            net2 + restricted net5, tutorial2 (1 net; twice; lazy) and client_noop+implicit_both selected together (1 net);
+            plus ALL sequences of <= 3 descend_from_node calls over 3 nodes x 2 objects (exhaustive).
+  thorough: 13 restriction strings covering every main test set (tutorial1, tutorial2, minimal, tutorial3 under
+            normal/leaves/all, tutorial_gui, tutorial_get, implicit_both, tutorial_finale, a two-set selection, an internal
+            setup node) x 4 vm restrictions (single variants, vm1 multi-variant, vm2 multi-variant, Fedora) x 5 worker sets
+            (net1 | net1 net2 | net2 net3 net4 | net1 net5 | cluster1.net6 cluster1.net7 net1), each parsed eagerly, (for the
+            single-variant case) twice, and lazily in 1-2 seeded orders of the (flat test, worker) pairs. The 13 two-worker
+            single-variant selections come first, the rest in an order seeded by VERIF_SEED; a wall-clock budget (18 min,
+            VERIF_BUDGET) cuts the tail, `exhaustive` tells whether the whole list was covered.
+  Selections run in VERIF_JOBS (default 4 quick / 8 thorough) forked processes; results are merged in list order.
 
 Obligations (one clause each):
   acyclic                       no dependency cycle (setup edges)
   single_root_reaches_all       exactly one node without parents, it is the shared root, every node reachable from it
-  edges_symmetric               b in setup(a) with objects S  <=>  a in cleanup(b) with the same S (S non-empty), and both
-                                ends are registered in the graph
+  edges_symmetric               b in setup(a) with objects S  <=>  a in cleanup(b) with the same S (S non-empty, objects of a),
+                                both ends registered in the graph; descend_from_node accumulates objects per edge (model)
   unique_ids                    no two nodes of the graph have the same id (prefix-name)
   unique_producer               per object with a declared dependency (`get`) a non-flat, non-clone-source test has exactly
                                 one parent through that object, of the same worker, using the same object variant and
-                                setting exactly the required state (any state if only the root state is required)
+                                setting exactly the required state (any state if only the root state is required), and no
+                                other registered test could provide it; a clone source has one clone per available
+                                producer; no parent through an object without dependency; a test has the same parents (and
+                                clones) whatever else is selected with it
   one_net_and_named_vms         objects[0] is the only net object and equals the `nets` parameter; `vms` parameter names
                                 exactly the vm objects (each once); the net is the worker named in the test name
   clone_sources_not_runnable    a node with clones answers False to should_run/should_clean, has a "0"-prefix, is not a
@@ -36,9 +44,13 @@ Obligations (one clause each):
                                 four different registers)
   worker_copies_equivalent      per-worker subgraphs agree (tests modulo set prefix and net, parents and edge objects);
                                 a restricted worker has a subset of the tests of an unrestricted one
-  lazy_equals_eager             lazily expanded tests == eagerly parsed tests, each with the same parents
+  lazy_equals_eager             lazily expanded tests == eagerly parsed tests, each with the same parents; every selected flat
+                                test is expanded for and linked to its expansions of every compatible worker
   parse_deterministic           two parses of the same input give the same ids, edges, bridges and clones
   no_unexpected_exception       parsing raises nothing but EmptyCartesianProduct (selection empty for the given objects)
+
+Not covered here: generated suites with random setup DAGs; lazy expansion interleaved with a real traversal (the expansion
+loop of traverse_object_trees is replayed by `parse_lazy` without running tests).
 """
 import itertools
 import json
@@ -93,7 +105,7 @@ def selections(tier, seed=0):
     for nt, vm, rs in itertools.product(nets, [ONE, MULTI1, MULTI2, FEDORA], sets):
         if vm is not ONE and rs in ("leaves..tutorial3", "all..tutorial3"):
             continue   # the 16 `remote` variants dominate the run time without adding shapes
-        out.append(sel(rs, vm, nt, lazy=2 if len(nt.split()) > 1 else 1, twice=True))
+        out.append(sel(rs, vm, nt, lazy=2 if len(nt.split()) > 1 else 1, twice=vm is ONE))
     # all test sets on two plain workers first, then the rest in a seeded order (the time budget cuts the tail evenly)
     first = [s for s in out if s["vms"] is ONE and s["nets"] == "net1 net2"]
     rest = [s for s in out if s not in first]
@@ -130,12 +142,18 @@ def snapshot_ids(graph):
 
 
 def snapshot_keys(graph):
-    """{(test key, net): sorted parents [(key, net), object ids]} of composite nodes, ignoring flat parents and the root."""
+    """{(test key, net): sorted parents [(key, net), object ids]} of composite nodes, ignoring flat parents and the root;
+    for a clone source its clones instead."""
     out = {}
     for n in graph.nodes:
         if n.is_flat():
             continue
-        deps = sorted([list(split_name(p)), obj_ids(s)] for p, s in n.setup_nodes.items() if not p.is_flat())
+        if n.cloned_nodes:
+            # a clone source is never run: which of the alternative producers it stays attached to is immaterial (it depends on
+            # the order in which the producers were met), its clones are what matters
+            deps = sorted([list(split_name(c)), ["clone"]] for c in n.cloned_nodes)
+        else:
+            deps = sorted([list(split_name(p)), obj_ids(s)] for p, s in n.setup_nodes.items() if not p.is_flat())
         out.setdefault(split_name(n), []).append(deps)
     return {k: sorted(v) for k, v in out.items()}
 
@@ -540,7 +558,7 @@ def main():
     tier = os.environ.get("VERIF_TIER", "quick")
     seed = int(os.environ.get("VERIF_SEED", "0") or 0)
     budget = int(os.environ.get("VERIF_BUDGET", 110 if tier == "quick" else 1080))
-    jobs = max(1, min(int(os.environ.get("VERIF_JOBS", "4" if tier == "quick" else "6")), os.cpu_count() or 1))
+    jobs = max(1, min(int(os.environ.get("VERIF_JOBS", "4" if tier == "quick" else "8")), os.cpu_count() or 1))
     todo = selections(tier, seed)
     rep, t0, done, graphs, nontrivial, samples, total_nodes, known = Report(), time.time(), 0, 0, set(), [], 0, {}
     import multiprocessing
